@@ -292,6 +292,16 @@ Definition authorize (t : list route) (testbed : bool) (a : auth) (q : request) 
       else match a with AuthError => Unauthenticated | AuthRole _ => Forbidden end
   end.
 
+(** ** The daemon configuration, as far as the decision depends on it.
+    config.rs:523 [ta_support_enabled] (a switch of its own), config.rs:1085-1087 [testbed_enabled] =
+    [self.testbed.is_some()] (the [testbed] section is present), config.rs:1022-1024 [ta_proxy_enabled] =
+    [ta_support_enabled || testbed.is_some()] (decides whether /api/v1/ta/proxy has a store; NOT what /testbed asks).
+    request.rs:61-63 [Request::testbed_enabled] = [config.testbed_enabled()] is the guard of testbed.rs:40. *)
+Record daemon_cfg := mkCfg { cfg_ta_support : bool; cfg_testbed : bool }.
+Definition testbed_on (c : daemon_cfg) : bool := cfg_testbed c.
+Definition ta_proxy_on (c : daemon_cfg) : bool := cfg_ta_support c || cfg_testbed c.
+Definition testbed_served (c : daemon_cfg) : bool := testbed_on c.
+
 (** Listing endpoints show exactly the entries the caller may read (cas.rs:47-63, bulk.rs:48-66). *)
 Definition readable (a : auth) (p : perm) (all : list handle) : list handle :=
   filter (fun h => auth_allows a p (Some h)) all.
